@@ -460,7 +460,7 @@ func inject(t *rapid.T, c *Case) {
 	ss := sites(c.T, c.Cfg)
 	nl := countLeaves(ss)
 	// a validator on a field the configuration does not mention: the pre-filled value is made to violate it
-	if rapid.IntRange(0, 7).Draw(t, "absentfault") == 0 {
+	if c.T.Kind == "struct" && rapid.IntRange(0, 7).Draw(t, "absentfault") == 0 {
 		var cand []int
 		for i := range c.T.Fields {
 			f := &c.T.Fields[i]
@@ -508,7 +508,7 @@ func inject(t *rapid.T, c *Case) {
 	case s.t.Kind == kValInt && rapid.Bool().Draw(t, "vl"):
 		f.Kind = "val-leaf"
 		set(gen.Int(13))
-	case (s.owner == kValStruct && s.fname == "X") || (s.owner == kDefStruct && s.fname == "Z"):
+	case (s.owner == kValStruct && s.fname == "X") || (s.owner == kDefStruct && s.fname == "Z") || (s.owner == kTop && s.fname == "Z"):
 		f.Kind = "val-struct"
 		set(gen.Int(13))
 	case s.t.Kind == kUnpStr:
@@ -571,12 +571,18 @@ func maxOf2(t *rapid.T, n int) int {
 
 func genCase(t *rapid.T) Case {
 	tg := &tgen{t: t, avoid: avoided()}
-	c := Case{T: tg.structT(runlog.Pick(3, 4))}
+	var c Case
+	if rapid.IntRange(0, 7).Draw(t, "cattop") == 0 {
+		// the target itself is a catalogue struct (InitDefaults and Validate of the struct passed in)
+		c.T = td(rapid.SampledFrom(topKinds).Draw(t, "topk"))
+	} else {
+		c.T = tg.structT(runlog.Pick(3, 4))
+	}
 	c.P = gen.GenTV(t, &gen.TDCfg{NilPtrElems: true}, c.T, false)
 	c.Global = rapid.SampledFrom([]string{"", "", "replace", "append", "prepend"}).Draw(t, "global")
 	cg := &cgen{t: t}
 	c.Cfg = gen.Obj()
-	cg.fill(c.Cfg, c.T, c.P)
+	cg.fill(c.Cfg, c.T.Shape(), c.P)
 	if rapid.IntRange(0, 9).Draw(t, "fault") < 3 {
 		inject(t, &c)
 	}
